@@ -190,14 +190,27 @@ def random_model(rng, n_objects=12, types=None, access=ACCESS, with_values=True,
             else:
                 tmpl = var(index, 1, name())
                 members[1] = tmpl
-                for s in range(2, k + 1):
+                style = rng.choice(["listed", "listed", "templated", "count-only"])
+                if style == "count-only":
+                    # an array of which the dictionary only describes the count: every element is a missing sub-index
+                    del members[1]
+                    members[0].default = 0
+                for s in range(2, k + 1) if style != "count-only" else ():
                     v = var(index, s, name())
                     v.dt = tmpl.dt
-                    if v.default is not None:
-                        v.default = random_value(rng, tmpl.dt)
-                    if v.value is not None:
-                        v.value = random_value(rng, tmpl.dt)
+                    if style == "templated":
+                        # described by its first element only: the other elements are generated from it and are as real
+                        v = VarM(index, s, f"{tmpl.name}_{s:x}", tmpl.dt, tmpl.access, default=tmpl.default, pdo=tmpl.pdo)
+                    else:
+                        if v.default is not None:
+                            v.default = random_value(rng, tmpl.dt)
+                        if v.value is not None:
+                            v.value = random_value(rng, tmpl.dt)
                     members[s] = v
+                obj = ObjM(kind, index, nm, members)
+                obj.array_style = style
+                m.add(obj)
+                continue
             m.add(ObjM(kind, index, nm, members))
     return m
 
@@ -229,6 +242,8 @@ def build_od(model, node_id=None):
             c = (od.ODRecord if o.kind == "record" else od.ODArray)(o.name, index)
             c.storage_location = o.storage
             for sub in sorted(o.members):
+                if getattr(o, "array_style", None) == "templated" and sub > 1:
+                    continue                     # generated on access from the element at sub-index 1
                 c.add_member(mk(o.members[sub]))
             d.add_object(c)
     d.node_id = node_id if node_id is not None else model.node_id
